@@ -416,6 +416,34 @@ def r9_conn_error_goaway(ctx, rid='C09.R9'):
     r.check((not ga) or compares, 'shortcut|same-reason', hg.file,
             'the already-going-away short-cut %s' % ('is taken only when the GOAWAY in flight carries the same reason' if compares or not ga else
                                                       'ignores the reason: after any GOAWAY (e.g. the NO_ERROR ones of a graceful shutdown) a later connection error closes the connection without a GOAWAY carrying its code and without failing the streams'))
+    # GoAway::go_away_now de-duplicates only an identical GOAWAY: same last-stream-id AND same reason
+    gn = r.fn('proto::go_away::GoAway::go_away_now')
+    if gn:
+        GA = 'proto::go_away::GoingAway'
+        sends = [bi for bi, t in gn.calls_to('proto::go_away::GoAway::go_away')]
+
+        def eq_edges(field):
+            out = []
+            for bi, sw in core.all_switches(F, gn).items():
+                if sw is None:
+                    continue
+                c = core.cmp_of(sw)
+                if c is None or c[0] not in ('Eq', 'Ne'):
+                    continue
+                if not (mentions_field(c[1], GA, field) or mentions_field(c[2], GA, field)):
+                    continue
+                for s2, lab in sw.labels.items():
+                    if lab is not None and (lab is True) == (c[0] == 'Eq'):
+                        out.append((bi, s2))
+            return out
+        r.check(bool(sends), 'dedup|sends', gn.file, 'go_away_now forwards to go_away')
+        for field in ('reason', 'last_processed_id'):
+            ee = eq_edges(field)
+            reach = gn.reachable([0], cut_blocks=sends, cut_edges=ee)
+            skip = [x for x in gn.returns() if x in reach]
+            r.check(bool(ee) and not skip, 'dedup|same-%s' % field, gn.file,
+                    'go_away_now drops a GOAWAY as a duplicate only when its %s equals the one in flight%s' % (field, '' if ee and not skip else
+                    ' — an error GOAWAY with the same last-stream-id as an earlier NO_ERROR one is swallowed: the connection closes without announcing the error code'))
     # the GOAWAY carries the reason argument
     for bi in now:
         t = hg.term(bi)
